@@ -318,7 +318,17 @@ def run_property(prop, tier, seed, rules_mod, repo=None, quiet=False, selftest=T
     """returns (exit_code, distinct obligations, ctx)"""
     ctx = Context(prop, tier, seed, repo=repo, quiet=quiet)
     try:
-        rules_mod.run(ctx)
+        ctx.incomplete = None
+        try:
+            rules_mod.run(ctx)
+        except AnalysisBroken as e:
+            # an edit that breaks the property often also removes an anchor a later rule binds to (a callback folded into its
+            # caller, ...).  A violation already established stays the verdict; without one a vanished anchor is exit 2.
+            known = load_known()
+            if not [o for o in ctx.obligations if not o.ok and match_known(known, prop, o) is None]:
+                raise
+            ctx.incomplete = str(e)
+            ctx.note('analysis incomplete after the reported violation(s): ' + str(e))
         obs = dedup(ctx.obligations)
         counts = {}
         for o in obs:
@@ -326,7 +336,7 @@ def run_property(prop, tier, seed, rules_mod, repo=None, quiet=False, selftest=T
         failing = set(o.rule for o in obs if not o.ok)
         if os.environ.get('MYTHVERIF_COUNTS'):
             print('rule counts:', sorted(counts.items()), file=sys.stderr)
-        for rule, n in ctx.floors.items():
+        for rule, n in ([] if ctx.incomplete else ctx.floors.items()):
             # a rule that already reports a violation is not additionally "below floor":
             # the obligations that depended on the violated construct legitimately vanish
             if counts.get(rule, 0) < n and rule not in failing:
